@@ -59,7 +59,7 @@ def gen_cases(tr, sd):
         chunks = rxref._split_words(src) if mode == "words" else list(src)
         node = rxref.Substr(chunks, mode, src)
         cases.append(dict(kind="lark", text="start: T\nT: %s\n" % rxref.to_lark(node), node=node, origin="fixed-substring"))
-    n = 240 if tr == "quick" else 1500
+    n = 240 if tr == "quick" else 1200
     for i in range(n):
         c = rxref.gen_case(rng, i)
         c["origin"] = "seed%d" % sd
